@@ -577,12 +577,14 @@ theorem init_is_as_modelled : Generated.initShape = ⟨true, true, true, false, 
 /-- units built with explicit data are not put into a string cache; a mixed-registry result carries the
     left operand's registry and no table row is written; cached units of a copied cache point at the new
     registry and copied tables carry the rows over; the default registry refuses `modify`/`remove`;
-    `define_unit` in a custom registry leaves the `unyt` namespace and the default table alone -/
+    `define_unit` in a custom registry leaves the `unyt` namespace and the default table alone; arithmetic inside
+    one of two registries with identical contents never returns units of the other (the rule caches are keyed
+    by the operands' registries — repaired by `fix:` ea1f881) -/
 theorem world_cfg_obligations :
     Generated.worldCfg.cachesExplicit = false ∧ Generated.mixedUsesLeft = true ∧
     Generated.mixedWritesTable = false ∧ Generated.routeUnitsRebound = true ∧
     Generated.routeRowsCarried = true ∧ Generated.defaultRefuses = true ∧
-    Generated.defineUnitLeaks = false := by decide
+    Generated.defineUnitLeaks = false ∧ Generated.ruleCacheLeaks = false := by decide
 
 /-- `noninterference` at the live configuration: every route of the list is alias-free whoever the source is -/
 theorem live_routes_never_alias {K : Type} [Mul K] [OfNat K 1] [OfNat K 0] [RPow K] (n : String) (sh : RouteShape)
